@@ -82,6 +82,11 @@ class HTTPProxyConnectionPool(ConnectionPool):
 
         if connection.closed():
             _logger.debug('Connecting to proxy.')
+
+            # A connection closed by the proxy must be reset for reuse
+            connection.reset()
+            connection.wrapped_connection = None
+
             yield from connection.connect()
 
             if tunnel:
